@@ -7,9 +7,11 @@
      SS  `)`                syntax error            -> type 1 at its line (parser recovers on the next line)
      SD k `g<k> = 1`        defines global g<k>
      SU k `print(g<k>)`     uses global g<k>        -> third pass: nothing when this file defines g<k> on an earlier line;
-                                                       type 3 ("crcular reference or load order error, ...") when it defines
-                                                       it only later; else nothing when some included file defines it;
-                                                       else type 2 ("var not define: g<k>")
+                                                       when it defines it only later: type 3 ("crcular reference or load
+                                                       order error, ...") unless ANOTHER included file defines g<k> as well
+                                                       (then nothing: fix 1d8cbd1, definedInOtherFile walks the first-pass
+                                                       tables of the other included files); else nothing when some included
+                                                       file defines it; else type 2 ("var not define: g<k>")
      SR f `require("<f>")`  requires the module of file f -> type 6 at its line (first pass) unless the index resolves it
      SF n `function gf(a) end` (n = 1) / `function gf(a, b) end` (n = 2)    defines the global function gf with n parameters
      SG   `gf(1, 2, 3)`     calls gf                -> the name gf is looked up like g<k> above (type 3 / type 2, tag gf_tag),
@@ -103,11 +105,17 @@ Definition gf_global (ps : list (file * list stmt * list (option file))) : optio
                            end) ps None.
 
 (* the look-up of a global name used at line i of a text that defines it on the lines `own`; `elsewhere` = the third
-   pass's global table has it *)
-Definition name_errs (i : N) (own : list N) (elsewhere : bool) (tag : N) : list err :=
+   pass's global table has it; `other` = an included file other than this one defines it (definedInOtherFile) *)
+Definition name_errs (i : N) (own : list N) (elsewhere other : bool) (tag : N) : list err :=
   if existsb (fun j => j <? i) own then []
-  else if negb (is_nil own) then [(3, i, tag)]
+  else if negb (is_nil own) then (if other then [] else [(3, i, tag)])
   else if elsewhere then [] else [(2, i, tag)].
+
+(* some included file other than f defines g<k> / defines gf *)
+Definition other_defines (ps : list (file * list stmt * list (option file))) (f : file) (k : N) : bool :=
+  existsb (fun x => negb (fst (fst x) =? f) && negb (is_nil (def_lines k (snd (fst x))))) ps.
+Definition other_defines_gf (ps : list (file * list stmt * list (option file))) (f : file) : bool :=
+  existsb (fun x => negb (fst (fst x) =? f) && match gf_first (snd (fst x)) with Some _ => true | None => false end) ps.
 
 (* ---- annotation types (check 18) ---- *)
 Definition undef_tag (j : N) : N := 10 + j.
@@ -139,8 +147,9 @@ Definition toy_cross (ps : list (file * list stmt * list (option file))) (f : fi
     let own_gf := match gf_first t with Some (ln, _) => [ln] | None => [] end in
     toy_ann ps t ++
     flat_map (fun p => match snd p with
-                       | SU k => name_errs (fst p) (def_lines k t) (existsb (N.eqb k) defs) k
-                       | SG => name_errs (fst p) own_gf (match gg with Some _ => true | None => false end) gf_tag ++
+                       | SU k => name_errs (fst p) (def_lines k t) (existsb (N.eqb k) defs) (other_defines ps f k) k
+                       | SG => name_errs (fst p) own_gf (match gg with Some _ => true | None => false end)
+                                         (other_defines_gf ps f) gf_tag ++
                                match gf_first t, gg with
                                | Some (ln, n), Some (_, m) => [(10, fst p, if ln <? fst p then n else m)]
                                | None, Some (_, m) => [(10, fst p, m)]
